@@ -149,7 +149,7 @@ func (p *c12) render(rec *core.Recorder, c c12Case, class string, nontrivial boo
 		return "", false
 	}
 	pr := &mt.Printer{Tight: c.tight}
-	srcs := pr.SourceSet(set)
+	srcs := maybeLarge(rec, pr.SourceSet(set))
 	canon := canonSrcs(srcs) + canonCtx(ctx)
 	rec.Eval(class, canon, nontrivial)
 	rec.Count("form:"+c12Forms[c.form], 1)
